@@ -357,6 +357,7 @@ func (pc *ProviderCache) Refresh(ctx context.Context) error {
 	// If the update map is small relative to the main map, do not generate a
 	// new main map yet.
 	if !needMerge(len(updates), len(read.m)) {
+		verifYield("store")
 		pc.read.Store(&readOnly{m: read.m, u: updates})
 		return nil
 	}
@@ -372,6 +373,7 @@ func (pc *ProviderCache) Refresh(ctx context.Context) error {
 	}
 
 	// Replace old readOnly map with new.
+	verifYield("store")
 	pc.read.Store(&readOnly{m: m})
 	return nil
 }
@@ -410,6 +412,7 @@ func (pc *ProviderCache) getReadOnly(ctx context.Context, pid peer.ID) (*readPro
 }
 
 func (pc *ProviderCache) loadReadOnly() readOnly {
+	verifYield("load")
 	if p := pc.read.Load(); p != nil {
 		return *p
 	}
@@ -501,6 +504,7 @@ func (pc *ProviderCache) fetchMissing(ctx context.Context, pid peer.ID) (*readPr
 	// If the update map is small relative to the main map, do not generate a
 	// new main map yet.
 	if !needMerge(len(updates), len(read.m)) {
+		verifYield("store")
 		pc.read.Store(&readOnly{m: read.m, u: updates})
 		return rpinfo, nil
 	}
@@ -516,6 +520,7 @@ func (pc *ProviderCache) fetchMissing(ctx context.Context, pid peer.ID) (*readPr
 	}
 
 	// Replace old readOnly map with new.
+	verifYield("store")
 	pc.read.Store(&readOnly{m: m})
 
 	return rpinfo, nil
